@@ -29,6 +29,7 @@ import (
 func init() {
 	props["C08"] = runC08
 	props["C08child"] = runC08Child
+	props["C08probe"] = runC08Probe
 }
 
 // callbacks that disturb the runtime while the interpreter holds raw pointers
@@ -98,6 +99,23 @@ type C08Link struct {
 type C08Tree struct {
 	Kids []C08Tree
 	Tag  string
+}
+
+// an acyclic value in which one leaf (holding a nil interface) is reached twice, far below the
+// level at which cycle detection starts
+type C08Leaf struct{ I interface{} }
+type C08Shared struct {
+	Next *C08Shared
+	A, B *C08Leaf
+}
+
+func c08SharedChain(depth int) *C08Shared {
+	leaf := &C08Leaf{}
+	n := &C08Shared{A: leaf, B: leaf}
+	for i := 0; i < depth; i++ {
+		n = &C08Shared{Next: n}
+	}
+	return n
 }
 
 func c08LinkChain(depth int) *C08Link {
@@ -378,6 +396,7 @@ func runC08Child(o *Out) {
 		run(fmt.Sprintf("link chain depth %d", d), c08LinkChain(d), false)
 		run(fmt.Sprintf("link chain depth %d twice in a slice", d), []*C08Link{c08LinkChain(d), c08LinkChain(d / 2)}, false)
 		run(fmt.Sprintf("tree chain depth %d", d), c08TreeChain(d), false)
+		run(fmt.Sprintf("shared leaf below %d links", d), c08SharedChain(d), false)
 		runtime.GC()
 		if d > 200 {
 			continue // the fat shapes below produce text quadratic in the depth times their width
@@ -491,7 +510,42 @@ func runC08Child(o *Out) {
 	}
 }
 
+// witnesses of recorded findings that kill the process: run alone in a child
+type C08RecMap map[string]C08RecMap
+type C08RecSlice []C08RecSlice
+
+func c08Probes() map[string]interface{} {
+	return map[string]interface{}{
+		"RecursiveNonStructType":       C08RecMap{"a": nil, "b": C08RecMap{"c": C08RecMap{}}},
+		"RecursiveNonStructType/slice": C08RecSlice{nil, C08RecSlice{C08RecSlice{}}},
+	}
+}
+
+// child: exit 0 if the witness encodes like encoding/json, 1 if not (a crash is any other status)
+func runC08Probe(o *Out) {
+	v := c08Probes()[os.Getenv("C08_PROBE")]
+	got, err := gojson.Marshal(v)
+	want, _ := stdjson.Marshal(v)
+	if err != nil || !bytes.Equal(got, want) {
+		os.Exit(1)
+	}
+}
+
 func runC08(o *Out) {
+	if self, err := os.Executable(); err == nil {
+		for name := range c08Probes() {
+			cctx, cancel := context.WithTimeout(context.Background(), 120*time.Second)
+			cmd := exec.CommandContext(cctx, self, "C08probe", "quick", "0", o.dir+"/probe")
+			cmd.Env = append(os.Environ(), "C08_PROBE="+name, "VERIF_AS_LIMIT_MB=8000")
+			err := cmd.Run()
+			cancel()
+			if err != nil {
+				o.known(strings.SplitN(name, "/", 2)[0], "witness "+name+" in c08Probes: "+err.Error())
+			} else {
+				o.count("probe_witness_encodes_correctly:"+name, 1)
+			}
+		}
+	}
 	bins := []struct{ name, bin string }{{"normal", ""}}
 	if b := os.Getenv("VERIF_CHECKPTR_BIN"); b != "" {
 		bins = append(bins, struct{ name, bin string }{"checkptr", b})
